@@ -171,6 +171,36 @@ def h_dtype(e, cfg):
         e.oblige_eq("output-like-fresh", X(*args), e.read(Y(*args)), step=t)
 
 
+def h_record(e, cfg):
+    """RecordTensor level (where `inclusive` is assignable): dt / duration / inclusive setters in any order vs a freshly created record."""
+    from inferno.core.infrastructure import Module, RecordTensor
+    c1, c2 = cfg["c1"], cfg["c2"]
+
+    def mk(c):
+        m = Module()
+        RecordTensor.create(m, "rec", c["dt"], c["duration"], torch.zeros(2), inclusive=c["inclusive"])
+        return m
+    mx, my = mk(c1), mk(c2)       # (the record refers to its owner weakly: keep the modules alive)
+    X, Y = mx.rec, my.rec
+    seq = [(a, c2[a]) for a in cfg["order"] if c1[a] != c2[a]]
+    e.tag(component="record", setters=",".join(a for a, _ in seq))
+    if cfg.get("prefill"):
+        X.push(e.sym((2,), torch.float32, "pre", lo=-3, hi=3))
+    apply(X, seq)
+    for a in ("dt", "duration", "inclusive"):
+        e.oblige("getter-reports-assigned", getattr(X, a) == c2[a], attr=a, got=str(getattr(X, a)), want=str(c2[a]))
+    fx, fy = (X.recordsz, X.dt, X.duration, bool(X.inclusive)), (Y.recordsz, Y.dt, Y.duration, bool(Y.inclusive))
+    e.oblige("history-sized-like-fresh", fx == fy, x=str(fx), y=str(fy))
+    if fx[0] != fy[0]:
+        return
+    X.reset(0.0); Y.reset(0.0)
+    for t in range(cfg["T"]):
+        x = e.sym((2,), torch.float32, f"x{t}", lo=-3, hi=3)
+        X.push(x); Y.push(x)
+        for k in range(Y.recordsz):
+            e.oblige_eq("read-like-fresh", X.read(k), e.read(Y.read(k)), step=t, offset=k)
+
+
 def checks(tier):
     th = tier == "thorough"
     base = dict(dt=1.0, delay=2.0, batchsz=1, inplace=False)
@@ -210,16 +240,26 @@ def checks(tier):
             for order in itertools.permutations(changed):
                 red.append(dict(reducer=k, c1=dict(rb), c2=c2, order=list(order), T=3))
     dty = [dict(syn=s) for s in C04.SYN]
+    rec = []
+    rcfgs = [dict(dt=dt, duration=du, inclusive=inc) for dt in (1.0, 0.5, 1.3) for du in (0.0, 1.0, 2.5) for inc in (False, True)]
+    for c1 in rcfgs:
+        for c2 in rcfgs:
+            changed = [a for a in ("dt", "duration", "inclusive") if c1[a] != c2[a]]
+            if not changed or (not th and ("inclusive" not in changed or len(changed) > 2)):
+                continue
+            for order in (itertools.permutations(changed) if (th or len(changed) == 2) else [tuple(changed)]):
+                rec.append(dict(c1=c1, c2=c2, order=list(order), T=3, prefill=bool(len(rec) % 2)))
     o = {"div_policy": "xr", "query_timeout_ms": 120000}
     return [Check("synapse_setters", h_synapse, syn, opts=o, timeout_s=900), Check("neuron_setters", h_neuron, neu, opts=o, timeout_s=900),
             Check("connection_setters", h_connection, con, opts=o, timeout_s=900), Check("reducer_setters", h_reducer, red, opts=o, timeout_s=900),
-            Check("dtype_to", h_dtype, dty, opts=o, timeout_s=600)]
+            Check("dtype_to", h_dtype, dty, opts=o, timeout_s=600), Check("record_setters", h_record, rec, opts=o, timeout_s=900)]
 
 
 BOUNDS = {
     "quick": {"synapses": "4 classes; single-attribute changes of dt in {0.5,1.3,0.9}, delay in {0,1,2.5,3}, batchsz 2, inplace, and two-attribute sequences, in both directions from (1.0, 2.0, 1, False)",
               "neurons": "8 classes, dt and batchsz", "connections": "dense/direct/lateral: dt, batchsz, replacement synapse, synapse delay, two-setter sequences",
-              "reducers": "cumulative trace / passthrough / EMA: dt, duration, inplace, all orders", "inputs": "T = 2-3 symbolic steps + delayed reads with a symbolic selector"},
+              "reducers": "cumulative trace / passthrough / EMA: dt, duration, inplace, all orders",
+              "records": "RecordTensor dt in {1.0,0.5,1.3} x duration in {0,1,2.5} x inclusive: every pair that toggles inclusive (alone or with one other attribute, both orders), initialised or not", "inputs": "T = 2-3 symbolic steps + delayed reads with a symbolic selector"},
     "thorough": {"all permutations of the changed attributes": True},
 }
 OUTSIDE = ["layers (assembled from the components above)", "devices", "setter sequences longer than 2-3"]
